@@ -418,6 +418,67 @@ class Foreign(Family):
         return out
 
 
+class SpecFile(Family):
+    """Ties coq/theories/SpecReader.v (the AST of well-formed files, render_file, wf_file, spec_records: the vocabulary
+    of theorems C03_reads_spec and C12_file) to the implementation: the generator's files are sent as ASTs; the model
+    must render the very bytes the generator rendered, judge them well-formed, and assign the records the real reader
+    yields for those bytes."""
+    name = 'specfile'
+    rule = ('the foreign generator\'s well-formed files (and copies with unknown options) expressed as SpecReader.ffile '
+            'ASTs: model = (wf_file, render_file, spec_records) of the AST, implementation = (true, the generator\'s own '
+            'bytes, what DiffXReader yields for them); files with misaligned newline bytes must be judged not well-formed; '
+            'non-trivial = at least 4 sections; distinct by file bytes')
+
+    def cases(self, tier, rng, prop_id):
+        n = 150 if tier == 'quick' else 3000
+        for i in range(n):
+            f = gf.gen_file(rng)
+            yield dict(kind='wellformed', file=f)
+            g, added = gf.add_unknown_options(f, rng)
+            # SpecReader.spec_conv is the specification's (positional, 10^k) reading of a digit string: fine as a
+            # definition, far too slow to run on the 4300-digit values; those stay with the foreign and header families
+            if all(len(o[1]) <= 200 for sec in g['sections'] for o in sec['opts']):
+                yield dict(kind='unknown-options', file=g)
+            if i % 25 == 0:
+                yield dict(kind='misaligned', file=gf.misaligned_file(rng))
+
+    def _impl(self, c):
+        if '_impl' not in c:
+            data = gf.render(c['file'])
+            c['_impl'] = (data,) + sl.run_reader(data)
+        return c['_impl']
+
+    def model_line(self, c):
+        a = gf.to_ast(c['file'])
+        return None if a is None else L('spec_file', a)
+
+    def impl_obs(self, c):
+        data, robs, records, term, orc = self._impl(c)
+        if c['kind'] == 'misaligned':
+            return '((wf false) %s)' % H(data)
+        return '((wf true) %s %s)' % (H(data), robs)
+
+    def normalize_model(self, line):
+        return sl.collapse_exc(line)
+
+    def discard(self, raw, c):
+        # wf_file is deliberately narrower than the generator's notion of well-formed (e.g. BOM-free UTF-32 text whose
+        # first bytes look like another codec's byte order mark): such a file is outside the theorems' domain. It is
+        # counted, not compared - but only if the model still rendered the very same bytes.
+        return c['kind'] != 'misaligned' and raw == '((wf false) %s)' % H(gf.render(c['file']))
+
+    def key(self, c):
+        return gf.render(c['file']).hex()
+
+    def nontrivial(self, c):
+        return len(c['file']['sections']) >= 4
+
+    def describe(self, c):
+        d = {k: v for k, v in c.items() if not k.startswith('_')}
+        d['data_hex'] = gf.render(c['file']).hex()
+        return d
+
+
 # ------------------------------------------------------------------ truncation and bad lengths (C07)
 def small_file(rng, limit):
     for _ in range(50):
@@ -592,11 +653,20 @@ def render_id(sid):
     return ('#%s:\n' % sid).encode()
 
 
+BLANKS = ['\n', '\n\n', '  \n', '\t\n\n', '\r\n']
+
+
+def hash_ids(seq):
+    import zlib
+    return zlib.crc32('|'.join(seq).encode())
+
+
 class Order(Family):
     name = 'order'
     rule = ('every sequence over the 24 syntactic section ids (9 legal + 15 well-formed but illegal level/name '
             'combinations) up to a bounded length, each rendered with minimal valid options/content; plus headers the '
-            'grammar rejects; non-trivial = length >= 2; distinct by id sequence')
+            'grammar rejects; every sequence again with tolerated blank lines before the last (or every) header; '
+            'non-trivial = length >= 2; distinct by file bytes')
 
     def cases(self, tier, rng, prop_id):
         import itertools
@@ -605,6 +675,13 @@ class Order(Family):
             if n <= 3:
                 for seq in itertools.product(IDS24, repeat=n):
                     yield dict(kind='exh%d' % n, ids=list(seq))
+                    if n >= 2:
+                        # the same sequence with tolerated blank lines before the last header (and, for one variant,
+                        # before every header): blank lines must not change which order is accepted
+                        bl = BLANKS[(hash_ids(seq)) % len(BLANKS)]
+                        yield dict(kind='exh%d-blank-last' % n, ids=list(seq), blanks=[''] * (n - 1) + [bl])
+                        if n == 2 or hash_ids(seq) % 4 == 0:
+                            yield dict(kind='exh%d-blank-all' % n, ids=list(seq), blanks=[''] + [bl] * (n - 1))
             else:
                 # length 4: all sequences whose first three ids are accepted (the others are decided by a prefix)
                 import spec
@@ -620,11 +697,14 @@ class Order(Family):
                 seq.append(rng.choice(spec.MAY_FOLLOW[seq[-1]]))
             seq.append(rng.choice(IDS24))
             yield dict(kind='walk', ids=seq)
+            yield dict(kind='walk-blank', ids=seq,
+                       blanks=[''] + [rng.choice(BLANKS) if rng.random() < 0.5 else '' for _ in seq[1:]])
         for h in ['#....meta: length=2\nx\n', '#.Change:\n', '#.change\n', '.change:\n', '#.changes:\n', '# .change:\n']:
             yield dict(kind='bad-header', ids=['diffx'], extra=h)
 
     def _data(self, c):
-        return b''.join(render_id(s) for s in c['ids']) + c.get('extra', '').encode()
+        blanks = c.get('blanks') or [''] * len(c['ids'])
+        return b''.join(b.encode() + render_id(s) for b, s in zip(blanks, c['ids'])) + c.get('extra', '').encode()
 
     def _impl(self, c):
         if '_impl' not in c:
